@@ -608,7 +608,7 @@ def crash_class(events):
         elif op == 'unlink':
             phase = 'idle' if phase == 'closed' else ('unlinked-bak' if e['f'] == 'bak' else 'unlinked-out')
         elif op == 'rename':
-            phase = 'renamed'
+            phase = 'idle' if e.get('t') == 'out' else 'renamed'    # os.replace(bak, out) completes a save
         elif op in ('open', 'write'):
             phase = 'write'
         elif op == 'close':
